@@ -293,15 +293,69 @@ type alphabetT struct {
 	Name string
 	NMD  int
 	NFmt int
+	Ops  []opT // non-nil: the alphabet is this explicit list (signer spelled out per operation, independent of the position)
 }
 
 var (
-	coreAlphabet = alphabetT{"core", 4, 2}
-	fullAlphabet = alphabetT{"full", len(mds), 2}
-	wideAlphabet = alphabetT{"full-metadata-one-format", len(mds), 1}
+	coreAlphabet = alphabetT{Name: "core", NMD: 4, NFmt: 2}
+	fullAlphabet = alphabetT{Name: "full", NMD: len(mds), NFmt: 2}
+	wideAlphabet = alphabetT{Name: "full-metadata-one-format", NMD: len(mds), NFmt: 1}
+	annAlphabet  = signerAnnotationAlphabet()
 )
 
-func (a alphabetT) size() int { return 5 * a.NMD * a.NFmt }
+func (a alphabetT) size() int {
+	if a.Ops != nil {
+		return len(a.Ops)
+	}
+	return 5 * a.NMD * a.NFmt
+}
+
+// Signers that also hand manifest annotations to SignOCI (the optional PluginAnnotations() method, as
+// signer.PluginSigner has it after an envelope-generator call). The statement fixes the thumbprints and the
+// signing time on the manifest whatever the signer supplies.
+const (
+	paSep       = "+plugin-annotations:"
+	paUnrelated = "example.plugin/build"
+)
+
+var paKinds = []string{"nil", "empty", "unrelated", "thumbprints", "created", "all"}
+
+func paMap(kind string) (map[string]string, error) {
+	bogusThumb := `["0000000000000000000000000000000000000000000000000000000000000000"]`
+	bogusTime := "1999-12-31T23:59:59Z"
+	switch kind {
+	case "nil":
+		return nil, nil
+	case "empty":
+		return map[string]string{}, nil
+	case "unrelated":
+		return map[string]string{paUnrelated: "42"}, nil
+	case "thumbprints":
+		return map[string]string{annThumbprints: bogusThumb}, nil
+	case "created":
+		return map[string]string{annCreated: bogusTime}, nil
+	case "all":
+		return map[string]string{paUnrelated: "42", annThumbprints: bogusThumb, annCreated: bogusTime}, nil
+	}
+	return nil, fmt.Errorf("unknown plugin annotation kind %q", kind)
+}
+
+// signerAnnotationAlphabet: 2 instrumented signers x 6 plugin-annotation answers x {tag, full digest reference}
+// x {no metadata, disjoint metadata}; the format alternates. Within one history an annotating signer kind is ONE
+// signer object (and one annotation map) for all its calls.
+func signerAnnotationAlphabet() alphabetT {
+	var ops []opT
+	for bi, base := range []string{"generic-wrapped-chain3", "instrumented-backdated-chain2"} {
+		for pi, pa := range paKinds {
+			for ri, ref := range []string{"tag", "full-digest"} {
+				for mi, md := range []string{"none", "disjoint"} {
+					ops = append(ops, opT{Ref: ref, MD: md, Format: formats[(bi+pi+ri+mi)%2], Signer: base + paSep + pa})
+				}
+			}
+		}
+	}
+	return alphabetT{Name: "signer-annotations", Ops: ops}
+}
 
 type opT struct {
 	Ref    string `json:"ref"`      // label of refT
@@ -316,6 +370,9 @@ func (o opT) String() string { return o.Ref + "+" + o.MD + "+" + o.Format + "@" 
 // is no dimension of its own: it rotates with (idx+step), so that every
 // (reference, metadata, format) meets every signer kind at some position.
 func (a alphabetT) opAt(idx, step int) opT {
+	if a.Ops != nil {
+		return a.Ops[idx]
+	}
 	fi := idx % a.NFmt
 	mi := (idx / a.NFmt) % a.NMD
 	ri := idx / (a.NFmt * a.NMD)
@@ -413,7 +470,7 @@ func (b *backSigner) Sign(c context.Context, desc ocispec.Descriptor, opts notat
 	}
 	sig, err := forge.SignCore(opts.SignatureMediaType, b.chain.X509(), b.chain.Leaf().Key, signature.SignRequest{
 		Payload:      signature.Payload{ContentType: payloadType, Content: payload},
-		SigningTime:  b.when,
+		SigningTime:  b.when.Add(-time.Duration(b.rec.calls-1) * time.Hour), // every call of one signer object at another instant
 		SigningAgent: "c11-harness/backdated",
 	})
 	if err != nil {
@@ -430,8 +487,36 @@ func (b *backSigner) Sign(c context.Context, desc ocispec.Descriptor, opts notat
 	return sig, &content.SignerInfo, nil
 }
 
+// annSigner adds PluginAnnotations() to a signer: every call returns THE SAME map object.
+type annSigner struct {
+	inner notation.Signer
+	ann   map[string]string
+	orig  map[string]string
+	asked int
+}
+
+func (a *annSigner) Sign(c context.Context, desc ocispec.Descriptor, opts notation.SignerSignOptions) ([]byte, *signature.SignerInfo, error) {
+	return a.inner.Sign(c, desc, opts)
+}
+
+func (a *annSigner) PluginAnnotations() map[string]string {
+	a.asked++
+	return a.ann
+}
+
 // make returns the signer of a kind, what it records (nil: not instrumented) and its chain.
 func (s *signers) make(kind string) (notation.Signer, *recorded, *pki.Chain, error) {
+	if i := strings.Index(kind, paSep); i >= 0 {
+		inner, rec, chain, err := s.make(kind[:i])
+		if err != nil {
+			return nil, nil, nil, err
+		}
+		m, err := paMap(kind[i+len(paSep):])
+		if err != nil {
+			return nil, nil, nil, err
+		}
+		return &annSigner{inner: inner, ann: m, orig: copyMap(m)}, rec, chain, nil
+	}
 	switch kind {
 	case "generic-wrapped-chain3":
 		rec := &recorded{}
@@ -582,13 +667,40 @@ type world struct {
 	snap    map[string]resolved
 	index0  []string // disk: the artifact's own entries of index.json before the first call
 
-	sigs   []sigRec // signature manifests attached to the artifact after the calls so far
-	labels []string // canonical labels of the successful calls so far
-	okOps  []opT    // the successful calls so far
+	sigs   []sigRec              // signature manifests attached to the artifact after the calls so far
+	labels []string              // canonical labels of the successful calls so far
+	okOps  []opT                 // the successful calls so far
+	kept   map[string]keptSigner // annotating signers live as long as the repository (one object per kind)
+	notes  []string              // recorded, not judged observations of the last judged call
 	evals  int
 }
 
 type viol struct{ key, what string }
+
+type keptSigner struct {
+	sg    notation.Signer
+	rec   *recorded
+	chain *pki.Chain
+}
+
+// signerFor: plain kinds get a fresh object per call (they are stateless); an annotating kind is one object per world.
+func (w *world) signerFor(kind string) (notation.Signer, *recorded, *pki.Chain, error) {
+	if !strings.Contains(kind, paSep) {
+		return w.sg.make(kind)
+	}
+	if k, ok := w.kept[kind]; ok {
+		return k.sg, k.rec, k.chain, nil
+	}
+	sg, rec, chain, err := w.sg.make(kind)
+	if err != nil {
+		return nil, nil, nil, err
+	}
+	if w.kept == nil {
+		w.kept = map[string]keptSigner{}
+	}
+	w.kept[kind] = keptSigner{sg, rec, chain}
+	return sg, rec, chain, nil
+}
 
 var scratchSeq atomic.Int64
 
@@ -875,10 +987,15 @@ func (w *world) apply(step int, op opT, judge bool) (vs []viol, class string, su
 	default:
 		return nil, "", false, fmt.Errorf("unknown format %q", op.Format)
 	}
-	sgn, rec, chain, err := w.sg.make(op.Signer)
+	sgn, rec, chain, err := w.signerFor(op.Signer)
 	if err != nil {
 		return nil, "", false, err
 	}
+	callsBefore := 0
+	if rec != nil {
+		callsBefore = rec.calls
+	}
+	w.notes = nil
 
 	// reference model (from the statement; everything is read from the snapshot taken before the FIRST call)
 	snap := w.snap[rf.Reduced]
@@ -1028,7 +1145,7 @@ func (w *world) apply(step int, op opT, judge bool) (vs []viol, class string, su
 		}
 	} else if wantOK {
 		n := len(vs)
-		w.judgeSuccess(add, op, mt, md, snap, exp, chain, rec, gotArt, gotSig, fresh, stillThere, len(old), pushesBefore)
+		w.judgeSuccess(add, op, mt, md, snap, exp, chain, rec, gotArt, gotSig, fresh, stillThere, len(old), pushesBefore, callsBefore)
 		if len(vs) == n {
 			class = "signed, all checks passed"
 		} else {
@@ -1082,7 +1199,7 @@ func (w *world) apply(step int, op opT, judge bool) (vs []viol, class string, su
 }
 
 func (w *world) judgeSuccess(add func(string, string, ...any), op opT, mt string, md mdT, snap resolved, exp ocispec.Descriptor, chain *pki.Chain, rec *recorded,
-	gotArt, gotSig ocispec.Descriptor, fresh []ocispec.Descriptor, stillThere, nOld, pushesBefore int) {
+	gotArt, gotSig ocispec.Descriptor, fresh []ocispec.Descriptor, stillThere, nOld, pushesBefore, callsBefore int) {
 	// returned artifact descriptor = the resolved one
 	if !descEqualLoose(gotArt, snap.Desc) {
 		add("return/artifact-descriptor-differs-from-resolved", "returned %s/%d/%s annotations %s; resolved before the first call: %s/%d/%s annotations %s",
@@ -1091,8 +1208,8 @@ func (w *world) judgeSuccess(add func(string, string, ...any), op opT, mt string
 	// the instrumented signer was asked once, for resolved descriptor + metadata
 	if rec != nil {
 		switch {
-		case rec.calls != 1:
-			add("signer/not-called-exactly-once", "the signer was called %d times", rec.calls)
+		case rec.calls-callsBefore != 1:
+			add("signer/not-called-exactly-once", "the signer was called %d times", rec.calls-callsBefore)
 		case !descEqualLoose(rec.desc, exp):
 			add("signer/descriptor-not-resolved-plus-metadata", "the signer was handed %s/%d/%s annotations %s (urls %v, artifactType %q); resolved descriptor plus metadata: %s/%d/%s annotations %s (urls %v, artifactType %q)",
 				rec.desc.Digest, rec.desc.Size, rec.desc.MediaType, mapString(rec.desc.Annotations), rec.desc.URLs, rec.desc.ArtifactType,
@@ -1218,6 +1335,16 @@ func (w *world) judgeSuccess(add func(string, string, ...any), op opT, mt string
 	case !created.Equal(signTime):
 		add("annotations/created-is-not-the-signing-time", "%s = %q, the envelope was signed at %s", annCreated, mann[annCreated], signTime.UTC().Format(time.RFC3339))
 	}
+	// a signer that supplies manifest annotations of its own: recorded, not judged (the statement fixes the two annotations above only)
+	if k, ok := w.kept[op.Signer]; ok {
+		if as, ok := k.sg.(*annSigner); ok {
+			pa := op.Signer[strings.Index(op.Signer, paSep)+len(paSep):]
+			if _, has := as.orig[paUnrelated]; has {
+				w.notes = append(w.notes, fmt.Sprintf("signer annotations %q: the signer's own annotation is on the manifest: %v (not judged)", pa, mann[paUnrelated] == as.orig[paUnrelated]))
+			}
+			w.notes = append(w.notes, fmt.Sprintf("signer annotations %q: the map the signer returned is unchanged after the call: %v (not judged)", pa, reflect.DeepEqual(as.ann, as.orig)))
+		}
+	}
 }
 
 // ---------------------------------------------------------------------------
@@ -1235,6 +1362,7 @@ type histResult struct {
 	state     string // canonical state after the history
 	successes int
 	lastOK    bool
+	notes     []string
 	evals     int
 	infra     error
 }
@@ -1312,6 +1440,7 @@ func runHistory(c histCase) (res histResult) {
 		}
 		if last {
 			res.vs, res.class, res.lastOK = vs, class, ok
+			res.notes = append([]string(nil), w.notes...)
 		}
 	}
 	if w.kind == "disk" {
@@ -1451,6 +1580,9 @@ func exploreLevel(r *hx.Run, alpha alphabetT, kind, artName string, depth int) {
 		}
 		outMu.Lock()
 		outAgg[fmt.Sprintf("%s: %s (%d earlier signatures)", kind, res.class, earlier)]++
+		for _, n := range res.notes {
+			outAgg[n]++
+		}
 		outMu.Unlock()
 		if len(res.vs) == 0 && res.lastOK {
 			controlsOK.Add(1)
@@ -1519,13 +1651,14 @@ func replay(r *hx.Run) {
 
 func main() {
 	r := hx.New("C11")
-	r.Rule = "every sequence of 1..d operations over an alphabet of 5 references x metadata maps x 2 envelope formats (full: 10 maps incl. 5 reserved-prefix shapes and 2 near misses = 100 operations, d = 2 on every repository; the same with one format per (reference, metadata) = 50 operations, thorough d = 3 on the mock; core: the first 4 maps = 40 operations, thorough d = 3 on every repository; the signer kind rotates with operation number + position) is replayed on a fresh repository (mock handing out one descriptor object / on-disk OCI layout opened by registry.NewOCIRepository / oras memory store) for each of 2 artifacts; the LAST call of every history is judged against the reference model and the before-first-call snapshots (earlier calls were judged as last call of the shorter history); canonical state = (multiset of signature manifests by format and signed annotations, artifact annotations as reported for the tag); non-trivial = distinct histories of length >= 2 with at least one successful signing call"
+	r.Rule = "every sequence of 1..d operations over an alphabet of 5 references x metadata maps x 2 envelope formats (full: 10 maps incl. 5 reserved-prefix shapes and 2 near misses = 100 operations, d = 2 on every repository; the same with one format per (reference, metadata) = 50 operations, thorough d = 3 on the mock; core: the first 4 maps = 40 operations, thorough d = 3 on every repository; the signer kind rotates with operation number + position; signer-annotations: 48 operations = 2 instrumented signers x 6 answers of PluginAnnotations() {nil, empty, unrelated key, thumbprint key, created key, all three} x 2 references x 2 metadata maps, one signer object per kind and history, d = 2 on every repository, thorough d = 3 on the mock) is replayed on a fresh repository (mock handing out one descriptor object / on-disk OCI layout opened by registry.NewOCIRepository / oras memory store) for each of 2 artifacts; the LAST call of every history is judged against the reference model and the before-first-call snapshots (earlier calls were judged as last call of the shorter history); canonical state = (multiset of signature manifests by format and signed annotations, artifact annotations as reported for the tag); non-trivial = distinct histories of length >= 2 with at least one successful signing call"
 	r.Assumptions = []string{
 		"ECDSA P-256 / SHA-256 are sound; the stored envelope is checked by lib/refsig (standard library only), signing time and certificates are decoded by hand from the JWS / COSE headers",
 		"what a reference resolves to is the repository's own answer before the first call (mock: everything resolves to the artifact; stores: the tag, the artifact's digest; the memory store has the digest tagged with the annotated descriptor and the other digest tagged with the artifact's plain descriptor, oci.Store does not resolve the other digest, returns a plain descriptor for a digest and adds org.opencontainers.image.ref.name for a tag read from index.json)",
 		"the part of a full reference handed to Resolve (tag / digest) is written by hand per alphabet entry",
 		"'annotation of the artifact' = annotation of the descriptor the repository resolved for that reference before the first call",
 		"signer kinds: real GenericSigner behind a recording wrapper (3 certificates), real GenericSigner unwrapped (2 certificates), instrumented signer of the harness that signs with notation-core-go at an instant 2 h in the past (2 certificates); the signer is not part of the options, so two calls with the same reference, metadata and format count as identical",
+		"annotating signers wrap the recording GenericSigner / the backdating signer and implement PluginAnnotations() returning one map object for the life of the repository; the backdating signer moves 1 h further into the past with every call of one object; whether the signer's own annotation reaches the manifest and whether SignOCI writes into the signer's map is recorded, not judged (the statement names neither)",
 		"manifest annotations other than the thumbprints and the creation time are not judged; the descriptors returned by a refused call are not judged",
 		"on-disk layout: only the artifact's own index.json entries are compared; after a refused call the whole directory (names, sizes, index.json bytes) must be unchanged",
 	}
@@ -1549,23 +1682,27 @@ func main() {
 		depth map[string]int
 		from  int
 	}
-	plans := []plan{{fullAlphabet, map[string]int{"mock": 2, "disk": 2, "memory": 2}, 1}}
+	plans := []plan{
+		{fullAlphabet, map[string]int{"mock": 2, "disk": 2, "memory": 2}, 1},
+		{annAlphabet, map[string]int{"mock": 2, "disk": 2, "memory": 2}, 1},
+	}
 	if r.Thorough() {
 		plans = []plan{
 			{fullAlphabet, map[string]int{"mock": 2, "disk": 2, "memory": 2}, 1},
 			{coreAlphabet, map[string]int{"mock": 3, "disk": 3, "memory": 3}, 3},
 			{wideAlphabet, map[string]int{"mock": 3}, 3},
+			{annAlphabet, map[string]int{"mock": 3, "disk": 2, "memory": 2}, 1},
 		}
 		r.SetDeadline(9 * time.Minute)
 	} else {
-		r.SetDeadline(60 * time.Second)
+		r.SetDeadline(40 * time.Second)
 	}
 	kinds := []string{"mock", "disk", "memory"}
 	requested := map[string]int{}
-	for _, p := range plans {
-		for d := p.from; d <= 3; d++ {
+	for d := 1; d <= 3; d++ { // shorter histories of every family first (also what a capped run has completed)
+		for _, p := range plans {
 			for _, k := range kinds {
-				if d > p.depth[k] {
+				if d < p.from || d > p.depth[k] {
 					continue
 				}
 				if key := p.alpha.Name + " alphabet: " + k; p.depth[k] > requested[key] {
@@ -1581,7 +1718,7 @@ func main() {
 	statesMu.Lock()
 	r.State(len(states))
 	statesMu.Unlock()
-	r.Extra["operations"] = map[string]int{"full": fullAlphabet.size(), "core": coreAlphabet.size(), wideAlphabet.Name: wideAlphabet.size()}
+	r.Extra["operations"] = map[string]int{"full": fullAlphabet.size(), "core": coreAlphabet.size(), wideAlphabet.Name: wideAlphabet.size(), annAlphabet.Name: annAlphabet.size()}
 	r.Extra["references"] = refLabels
 	var mdNames []string
 	for _, m := range mds {
@@ -1593,6 +1730,7 @@ func main() {
 	}
 	r.Extra["metadata_maps"] = mdNames
 	r.Extra["signer_kinds"] = signerKinds
+	r.Extra["signer_plugin_annotation_kinds"] = paKinds
 	r.Extra["depth_requested"] = requested
 	levelsDoneM.Lock()
 	r.Extra["depth_completed"] = levelsDone
